@@ -13,7 +13,7 @@ package backend
 //@
 //@ // kept(ms, n, headers): how many of the first n matches must be reported
 //@ // (header matches only with -headers)
-//@ spec kept(ms classifier.Matches, n int, headers bool) int
+//@ spec kept(ms classifier.Matches, n int, headers bool) int reads E:*classifier.Match, H:classifier.Match.MatchType
 //@ lemma kept-def: forall ms classifier.Matches, h bool :: kept(ms, 0, h) == 0 && (forall n int :: 0 <= n && n < len(ms) ==> kept(ms, n+1, h) == kept(ms, n, h) + ite(!h && ms[n].MatchType == "Header", 0, 1))
 //@ ghostvar mine int
 //@
